@@ -567,9 +567,12 @@ def module_file(modname):
     return None
 
 
-def run_search(ctx, sites, pool, why):
-    """sites: [(origin, text)] -> True when a failing history was reported"""
-    key = tuple(sorted(t for _, t in sites))
+def run_search(ctx, sites, pool, why, validate=None):
+    """sites: [(origin, text)] -> True when a failing history was reported.
+    validate = [(family, phase), ...]: no site is new; the histories of these stages are run on the tree as it is, every
+    stage to the end, and a history that differs from the single-call answers is a failure of the property all the same
+    (thread A is paused inside the files of the `.modelled` sites: the precision decorator, the model cache)."""
+    key = tuple(sorted(t for _, t in sites)) + (('validate',) if validate else ())
     if key in _SEARCHED:
         return _SEARCHED[key]
     mods = sorted({site_module(t) for _, t in sites})
@@ -578,14 +581,17 @@ def run_search(ctx, sites, pool, why):
         for f in REACH.get(m.split('.')[0], []):
             if f not in fams:
                 fams.append(f)
+    if validate:
+        mods = ['recognizers_number.number.utilities', 'recognizers_text.model']
     files = [os.path.realpath(f) for f in (module_file(m) for m in mods) if f]
-    ctx.extra['hidden_state_search'] = {'sites': [t for _, t in sites][:20], 'modules': mods, 'families': fams, 'why': why}
+    ctx.extra['hidden_state_validation' if validate else 'hidden_state_search'] = {
+        'sites': [t for _, t in sites][:20], 'modules': mods, 'families': fams, 'why': why}
     found = False
     log = []
     t0 = time.time()
     order = ['same-call-twice', 'same-text-two-cultures', 'same-text-two-references', 'same-text-shifted', 'fallback-then-no-fallback',
              'worker-thread-alone', 'main-then-worker-thread', 'paused-interleaving']
-    for fam, phase in [(f, ph) for f in fams for ph in ('sequential', 'threads')]:
+    for fam, phase in validate or [(f, ph) for f in fams for ph in ('sequential', 'threads')]:
         hs = build_histories(fam, phase, pool, files)
         if not hs:
             continue
@@ -615,7 +621,9 @@ def run_search(ctx, sites, pool, why):
                     continue
                 failing.setdefault(h['kind'], []).append((h, i, ans, want, r.get('paused_at')))
                 break
+        paused_hit = sum(1 for j, h in enumerate(hs) if h['kind'] == 'paused-interleaving' and res[str(len(single_hs) + j)].get('paused'))
         log.append({'family': fam, 'phase': phase, 'histories': len(hs), 'single_calls': len(single_hs),
+                    'paused_interleavings_that_reached_their_pause': paused_hit,
                     'wall_s': round(time.time() - t1, 1), 'failing_by_kind': {k: len(v) for k, v in failing.items()}})
         for kind in order:
             if kind not in failing:
@@ -632,19 +640,21 @@ def run_search(ctx, sites, pool, why):
                                                           ', reference=%s' % c[4] if c[4] else '',
                                                           ', fallback_to_default_culture=%s' % c[5] if c[5] is not None else '', th))
             ctx.report('property', 'state-dependent-result:' + kind,
-                       'new hidden-state site(s) %s; history in a process that has imported the packages and built the models '
+                       '%s %s; history in a process that has imported the packages and built the models '
                        'but recognised nothing: %s; call %d answers %s, the same call alone answers %s' % (
+                           'new hidden-state site(s)' if sites else 'no new site in the inventory',
                            '; '.join(t for _, t in sites[:4]), ' '.join(steps), i + 1, (ans[i] or '')[:300], (want or '')[:300]),
                        failing_input={'history': h, 'answers': ans, 'answer_of_call_%d_alone' % (i + 1): want,
                                       'differing_call': i + 1, 'new_sites': [t for _, t in sites][:20], 'paused_at': at,
                                       'histories_failing_by_kind': {k: len(v) for k, v in failing.items()}},
                        property_fails=True)
             ctx.nontriv(('hidden-state-history', kind))
-        if found:
+        if found and not validate:
             break       # the first stage with a failing history ends the search
-    ctx.extra['hidden_state_search']['stages'] = log
-    ctx.extra['hidden_state_search']['wall_s'] = round(time.time() - t0, 1)
-    if not found:
+    slot = ctx.extra['hidden_state_validation' if validate else 'hidden_state_search']
+    slot['stages'] = log
+    slot['wall_s'] = round(time.time() - t0, 1)
+    if not found and not validate:
         ctx.report('proof', 'hidden-state-site-without-failing-history',
                    'site(s) not on the allow-list of RTV.Props.C02State: %s (%s); %s' % (
                        '; '.join(t for _, t in sites[:8]), why,
@@ -752,6 +762,12 @@ def correspond(ctx, pool=None):
     if sites:
         run_search(ctx, sites, pool, 'static inventory: %d new row(s); run-time walk: %d changed site(s), %d moved attribute(s)' % (
             len(new), len(changed), len(moved)))
+    else:
+        # nothing new: the targeted histories are still evaluated on the tree as it is (they must all agree with the
+        # single calls) -- a slice in the quick tier, every family and phase in the thorough tier
+        stages = [(f, ph) for f in ('number', 'unit', 'datetime', 'sequence', 'choice') for ph in ('sequential', 'threads')] \
+            if ctx.thorough else [('unit', 'threads'), ('choice', 'sequential'), ('sequence', 'sequential')]
+        run_search(ctx, [], pool, 'validation of the history search on the tree as it is', validate=stages)
 
 
 def search(ctx, proof_problems, pool=None):
